@@ -91,6 +91,8 @@ def build(r, tempo):
         a.append("%d = N %d %d" % (t, t % 5, 1 + t % 3))
         if t % 2 == 0:
             b += ["%d = N 7 %d" % (t, 2), "%d = S 2 1" % t, "%d = E solo" % t]
+        elif t % 4 == 1:
+            b += ["%d = N 6 %d" % (t, 3)]  # a tick carrying only a flag line (with a length): a note of length 0
     return mk(res=r, sync=sync, events=ev, tracks=[("ExpertSingle", a), ("HardDrums", b)])
 
 
